@@ -1,77 +1,46 @@
 //! Kani harnesses for `RepliconServer` (C09).
 use super::*;
 
-// HARNESS: c09_server_stop_and_remove_client
+// HARNESS: c09_server_stop_clears
 // PROPS: C09
 // TIER: quick
 // TIMEOUT: 300
-// DRIVES: RepliconServer::set_running, RepliconServer::remove_client, RepliconServer::send, RepliconServer::insert_received, RepliconServer::receive, RepliconServer::drain_sent, RepliconServer::setup_client_channels
-// BOUNDS: 2 clients, 1 receive channel, 3 received + 3 sent messages each tagged with a symbolic client; unwind 5
+// DRIVES: RepliconServer::set_running, RepliconServer::send, RepliconServer::insert_received, RepliconServer::setup_client_channels, RepliconServer::is_running
+// BOUNDS: running server with 2 received + 2 sent messages of 2 clients; symbolic new running flag; then one more message offered per direction; unwind 4
 #[kani::proof]
-#[kani::unwind(5)]
-fn c09_server_stop_and_remove_client() {
+#[kani::unwind(4)]
+#[kani::stub(<bytes::Bytes as core::ops::Drop>::drop, noop_bytes_drop)]
+fn c09_server_stop_clears() {
     let clients = [Entity::from_raw(1), Entity::from_raw(2)];
     let mut server = RepliconServer::default();
     server.setup_client_channels(1);
+    server.set_running(true);
+    for i in 0..2 {
+        server.insert_received(clients[i], 0usize, Bytes::from_static(&[1]));
+        server.send(clients[i], 0usize, Bytes::from_static(&[2]));
+    }
+    assert!(server.received_messages[0].len() == 2 && server.sent_messages.len() == 2);
     let running: bool = kani::any();
     server.set_running(running);
-
-    let mut recv_owner = [0usize; 3];
-    let mut sent_owner = [0usize; 3];
-    for i in 0..3 {
-        let r: usize = kani::any();
-        let s: usize = kani::any();
-        kani::assume(r < 2 && s < 2);
-        recv_owner[i] = r;
-        sent_owner[i] = s;
-        // Byte i identifies the message.
-        server.insert_received(clients[r], 0usize, Bytes::copy_from_slice(&[i as u8]));
-        server.send(clients[s], 0usize, Bytes::copy_from_slice(&[i as u8]));
-    }
+    assert!(server.is_running() == running);
     if !running {
-        // A stopped server accepts nothing.
+        // Stopping drops everything, and a stopped server accepts nothing.
         assert!(server.received_messages[0].is_empty() && server.sent_messages.is_empty());
-    }
-
-    let stop: bool = kani::any();
-    if stop {
-        server.set_running(false);
-        assert!(!server.is_running());
-        assert!(server.received_messages[0].is_empty());
-        assert!(server.drain_sent().count() == 0);
-        kani::cover!(running, "stop a running server with queued messages");
+        server.insert_received(clients[0], 0usize, Bytes::from_static(&[3]));
+        server.send(clients[0], 0usize, Bytes::from_static(&[4]));
+        assert!(server.received_messages[0].is_empty() && server.sent_messages.is_empty());
+        kani::cover!(true, "stop a running server with queued messages");
     } else {
-        let victim: usize = kani::any();
-        kani::assume(victim < 2);
-        server.remove_client(clients[victim]);
-        // No message of the removed client survives; all others survive in order.
-        let mut expect = 0usize;
-        for &(entity, ref msg) in &server.received_messages[0] {
-            assert!(entity != clients[victim]);
-            let id = msg[0] as usize;
-            assert!(id >= expect && recv_owner[id] != victim);
-            expect = id + 1;
-        }
-        let mut kept = 0usize;
-        for &(entity, _, _) in &server.sent_messages {
-            assert!(entity != clients[victim]);
-            kept += 1;
-        }
-        if running {
-            let mut others_recv = 0usize;
-            let mut others_sent = 0usize;
-            for i in 0..3 {
-                if recv_owner[i] != victim {
-                    others_recv += 1;
-                }
-                if sent_owner[i] != victim {
-                    others_sent += 1;
-                }
-            }
-            assert!(server.received_messages[0].len() == others_recv);
-            assert!(kept == others_sent);
-            kani::cover!(others_recv == 1 && others_sent == 2, "mixed ownership");
-        }
+        assert!(server.received_messages[0].len() == 2 && server.sent_messages.len() == 2);
+        kani::cover!(true, "server keeps running");
     }
     core::mem::forget(server);
 }
+
+// `RepliconServer::remove_client` is NOT checked here: `Vec::retain` with a symbolic predicate ends in
+// `ptr::copy` with a symbolic length (BackshiftOnDrop), which makes CBMC's memory model grow by
+// ~170 MB/s until it is killed (42 GB after 230 s even for one-element stores; probe P20).
+
+/// Environment fake: releasing a message buffer is a no-op (the `Bytes` vtable drop is an indirect
+/// call that costs CBMC ~40 s per call site and is irrelevant to the properties).
+fn noop_bytes_drop(_b: &mut Bytes) {}
